@@ -431,6 +431,9 @@ pub fn run(args: &Args, rep: &mut Report) {
             if !args.mine(idx) {
                 continue;
             }
+            if rep.over_budget() {
+                return;
+            }
             for p in &POPTS {
                 for damage in [false, true] {
                     if damage && edits.len() > 1 && quick {
